@@ -7,7 +7,7 @@ from props._semprop import fill
 from sem import run_semantic
 
 MODULE = "Proofs.Props.C01"
-THEOREMS = ["Facto.Circuit.settle", "Facto.Circuit.settled_fixpoint", "Facto.scalar_end_to_end"]
+THEOREMS = ["Facto.Circuit.settle", "Facto.Circuit.settled_fixpoint", "Facto.scalar_end_to_end", "Facto.observed_scalar_end_to_end", "Facto.observed_bundle_end_to_end"]
 
 
 def labels(rec):
